@@ -68,6 +68,19 @@ class InvLoop:
     def __init__(self, inv, modifies=('locals', 'store', 'trace', 'heap'), lemmas=None, name='loop', bound=None):
         self.inv = inv; self.modifies = modifies; self.lemmas = lemmas; self.name = name; self.bound = bound
         self.pre = None; self.eng = None; self.extra = {}
+        self.modes = None; self.mode_setup = None       # case split of the havocked state (a local that is None or a list): see havocs()
+
+    def havocs(self, eng, p, s, fr, tag):
+        """the arbitrary loop-head states the preserve / exit steps start from: one, or one per declared mode (the contract's
+        mode_setup(L, q, mode) rebinds the locals whose python type differs between the modes, e.g. `agg` = None | list)"""
+        if not self.modes:
+            return [(None, self.havoc(eng, p, s, fr, tag))]
+        out = []
+        for m in self.modes:
+            q = self.havoc(eng, p, s, fr, f'{tag}{m}')
+            self.mode_setup(self, q, m, f'{tag}{m}')
+            out.append((m, q))
+        return out
 
     def _inv_list(self, p, j):
         r = self.inv(self, p, j)
@@ -121,39 +134,7 @@ class InvLoop:
                         seq = z3.Empty(sort) if not ts else (z3.Unit(ts[0]) if len(ts) == 1 else z3.Concat(*[z3.Unit(t) for t in ts]))
                         p.heap[v.oid] = ('slist', seq, kind)
 
-    def apply(self, eng, p, s, itv, fr):
-        self.fr = fr
-        self.symbolic_lists(eng, p, s, fr)
-        self.pre = p.fork(); self.eng = eng
-        is_for = isinstance(s, ast.For)
-        N = None; seq = None
-        if is_for:
-            if isinstance(itv, Host) and itv.kind == 'range':
-                N = itv.n if not isinstance(itv.n, int) else IntVal(itv.n)
-            elif isinstance(itv, Host) and itv.kind == 'seqiter':
-                seq = itv; N = Length(itv.seq)
-            elif isinstance(itv, Host) and itv.kind == 'dictview':
-                trusted_dict_iter()
-                c = p.heap[itv.ref.oid]
-                sq = z3.Select(c[7], itv.i); seq = Host('seqiter', seq=sq, ek='val'); N = Length(sq)
-            elif isinstance(itv, SSeq):
-                seq = Host('seqiter', seq=itv.t, ek=itv.kind); N = Length(itv.t)
-            elif isinstance(itv, Ref) and p.heap[itv.oid][0] in ('slist',):
-                c = p.heap[itv.oid]; seq = Host('seqiter', seq=c[1], ek=c[2]); N = Length(c[1])
-            elif isinstance(itv, SVal) and getattr(self, 'iter_as_seq', None):
-                sq = self.iter_as_seq(self, p, itv); seq = Host('seqiter', seq=sq, ek='val'); N = Length(sq)
-            else:
-                raise Unsupported(f'loop over {itv!r}')
-            self.N = N
-        where = eng.where
-        lname = f'loop{fr.loop_ordinals.get(id(s))}'
-        # ---- entry
-        j0 = IntVal(0)
-        entry_facts = list(self.lemmas(self, p, j0)) if (self.lemmas and is_for) else []     # base-case equations of the spec folds
-        for nm, g, o_ in self._inv_list(p, j0):
-            eng.add_obligation(f'{where}/{lname}/entry.{nm}', list(p.pc) + entry_facts, g, 'loop', p, {'lemmas': (o_ or {}).get('lemmas')})
-        # ---- preserve
-        ph = self.havoc(eng, p, s, fr, f'{lname}h')
+    def _preserve(self, eng, p, s, fr, ph, is_for, N, seq, where, lname):
         j = fresh(f'{lname}_j', IntSort())
         hyp = []
         if is_for:
@@ -196,8 +177,9 @@ class InvLoop:
                     eng.add_obligation(f'{where}/{lname}/preserve{bi}.{nm}', q.pc, alt[0], 'loop', q, alt[1])
                 else:
                     eng.add_obligation(f'{where}/{lname}/preserve{bi}.{nm}', q.pc, g, 'loop', q, {'lemmas': o_.get('lemmas')})
-        # ---- exit
-        pe = self.havoc(eng, p, s, fr, f'{lname}x')
+        return exits
+
+    def _exit(self, eng, s, fr, pe, is_for, N):
         if is_for:
             Nn = If(N > 0, N, 0)
             for nm, g, _o in self._inv_list(pe, Nn):
@@ -215,6 +197,47 @@ class InvLoop:
                 else:
                     q.pc.append(Not(c))
                     if eng.feasible(q.pc): out.append(q)
+        return out
+
+    def apply(self, eng, p, s, itv, fr):
+        self.fr = fr
+        self.symbolic_lists(eng, p, s, fr)
+        self.pre = p.fork(); self.eng = eng
+        is_for = isinstance(s, ast.For)
+        N = None; seq = None
+        if is_for:
+            if isinstance(itv, Host) and itv.kind == 'range':
+                N = itv.n if not isinstance(itv.n, int) else IntVal(itv.n)
+            elif isinstance(itv, Host) and itv.kind == 'seqiter':
+                seq = itv; N = Length(itv.seq)
+            elif isinstance(itv, Host) and itv.kind == 'dictview':
+                trusted_dict_iter()
+                c = p.heap[itv.ref.oid]
+                sq = z3.Select(c[7], itv.i); seq = Host('seqiter', seq=sq, ek='val'); N = Length(sq)
+            elif isinstance(itv, SSeq):
+                seq = Host('seqiter', seq=itv.t, ek=itv.kind); N = Length(itv.t)
+            elif isinstance(itv, Ref) and p.heap[itv.oid][0] in ('slist',):
+                c = p.heap[itv.oid]; seq = Host('seqiter', seq=c[1], ek=c[2]); N = Length(c[1])
+            elif isinstance(itv, SVal) and getattr(self, 'iter_as_seq', None):
+                sq = self.iter_as_seq(self, p, itv); seq = Host('seqiter', seq=sq, ek='val'); N = Length(sq)
+            else:
+                raise Unsupported(f'loop over {itv!r}')
+            self.N = N
+        where = eng.where
+        lname = f'loop{fr.loop_ordinals.get(id(s))}'
+        # ---- entry
+        j0 = IntVal(0)
+        entry_facts = list(self.lemmas(self, p, j0)) if (self.lemmas and is_for) else []     # base-case equations of the spec folds
+        for nm, g, o_ in self._inv_list(p, j0):
+            eng.add_obligation(f'{where}/{lname}/entry.{nm}', list(p.pc) + entry_facts, g, 'loop', p, {'lemmas': (o_ or {}).get('lemmas')})
+        # ---- preserve
+        exits = []
+        for mode, ph in self.havocs(eng, p, s, fr, f'{lname}h'):
+            exits += self._preserve(eng, p, s, fr, ph, is_for, N, seq, where, lname + (f'[{mode}]' if mode else ''))
+        # ---- exit
+        out = []
+        for mode, pe in self.havocs(eng, p, s, fr, f'{lname}x'):
+            out += self._exit(eng, s, fr, pe, is_for, N)
         if self.lemmas and getattr(self, 'exit_lemmas', None):
             for q in out:
                 q.pc.extend(self.exit_lemmas(self, q))
